@@ -63,10 +63,6 @@ theorem pool_run_inv (ops : List Proofs.Pool.PoolOp) (hd : Proofs.Pool.Disciplin
     changed `Put` site breaks this theorem. (An audited argument, not a proof about Go.) -/
 def auditedPutSites : List (String × String × String × String × String) := [
   ("connection_unix.go", "*conn.Discard", "byteslice.Put", "c.cache", "cache was obtained by Get in Next/Peek, owned by the connection, set to nil right after"),
-  ("connection_unix.go", "*conn.release", "byteslice.Put", "bs.StringToBytes(addr.Zone)", "FINDING: zone string of localAddr (client side); owned only if produced by itod"),
-  ("connection_unix.go", "*conn.release", "byteslice.Put", "bs.StringToBytes(addr.Zone)", "FINDING: zone string of remoteAddr; for enrolled net.Conn it belongs to package net"),
-  ("connection_unix.go", "*conn.release", "byteslice.Put", "bs.StringToBytes(addr.Zone)", "FINDING: zone string of localAddr (UDP client side)"),
-  ("connection_unix.go", "*conn.release", "byteslice.Put", "bs.StringToBytes(addr.Zone)", "FINDING: zone string of remoteAddr (UDP)"),
   ("pkg/buffer/linkedlist/linked_list_buffer.go", "*Buffer.Discard", "byteslice.Put", "b.buf", "node popped from the list, not re-linked; for Append-ed nodes the memory is the caller's (documented contract of Append)"),
   ("pkg/buffer/linkedlist/linked_list_buffer.go", "*Buffer.FreeNode", "byteslice.Put", "p", "explicit API: caller states ownership"),
   ("pkg/buffer/linkedlist/linked_list_buffer.go", "*Buffer.ReadFrom", "byteslice.Put", "b", "buffer obtained by Get in the same iteration and not linked (zero bytes read)"),
